@@ -792,6 +792,14 @@ class Interp(seq_detached.DetachedMixin, S.SeqRun):
         except Exception as e:
             if exp_exc is not None and isinstance(e, exp_exc):
                 return False, e
+            if isinstance(e, core.UnrepeatableReadError) and not self.fault_fired_in_session \
+                    and not any(getattr(x, 'ponysim_injected', None) for x in _chain(e)):
+                # nobody else writes to this database: a read that reports a concurrent change is a read that
+                # did not return the session's data (under loading knobs the check re-tags this as C23)
+                self.viol('C10', 'read-raised-unrepeatable', desc.split(' ')[0],
+                          '%s raised UnrepeatableReadError in a history with a single writer: %s'
+                          % (desc, str(e)[:240]))
+                raise S.Poisoned()
             self.flush_failed(e, 'autoflush in %s' % desc.split(' ')[0])
             raise S.Poisoned()
 
